@@ -11,7 +11,7 @@ from ._util import real, integer, sym_array, fresh_index
 U = "virocon.utils."
 
 
-@contract(U + "calculate_design_conditions", ["C17", "C19"], [dict(steps=s, swap=w) for s in ("none", "int", "list") for w in (False, True)], name="utils.design_conditions")
+@contract(U + "calculate_design_conditions", ["C17", "C19", "C03", "C20"], [dict(steps=s, swap=w) for s in ("none", "int", "list") for w in (False, True)], name="utils.design_conditions")
 class DesignConditions(Contract):
     """for every requested abscissa: the closed polygon (first point repeated) is intersected with the vertical
     line through it spanning beyond the polygon; if there is an intersection the abscissa itself and the LARGEST
